@@ -10,6 +10,7 @@
 (*        with the query's ID, and the specification's receiver must find the   *)
 (*        transfer complete exactly at the last one; a verified signed request  *)
 (*        gets a TSIG on every envelope (the MAC chain itself: Trace_Tsig).     *)
+(*        Either Out reports an error to its caller or every record arrives.    *)
 (* All events are pure-function observations: a wrong one is marked bad.       *)
 EXTENDS Xfr, TraceBase
 
@@ -23,12 +24,19 @@ InOK(e) ==
   /\ \/ o.ambig                               \* a validly truncated MAC was met: AMBIG, only closure is asserted
      \/ o.delivered = e.obs.delivered /\ o.err = e.obs.err
 
+IsPrefix(a, b) == Len(a) <= Len(b) /\ \A i \in 1..Len(a) : a[i] = b[i]
+
 OutOK(e) ==
-  /\ e.wire = e.chunks
-  /\ e.ids
-  /\ (e.variant = "signed" => e.signed = Len(e.wire))
-  /\ LET o == Observe(e.mode, e.q, FALSE, 1, [i \in 1..Len(e.wire) |-> Env(e.wire[i])]) IN
-     /\ o.complete /\ ~o.err /\ o.used = Len(e.wire) /\ o.delivered = e.chunks
+  IF e.outerr
+  THEN \* the sender told its caller that the transfer failed (e.g. an envelope that cannot be packed into one
+       \* message): what did go out is a prefix of what was fed, well formed
+       /\ IsPrefix(e.wire, e.chunks) /\ e.ids
+  ELSE \* no error reported: every record arrived, in the envelopes fed
+       /\ e.wire = e.chunks
+       /\ e.ids
+       /\ (e.variant = "signed" => e.signed = Len(e.wire))
+       /\ LET o == Observe(e.mode, e.q, FALSE, 1, [i \in 1..Len(e.wire) |-> Env(e.wire[i])]) IN
+          /\ o.complete /\ ~o.err /\ o.used = Len(e.wire) /\ o.delivered = e.chunks
 
 Judge(e) == CASE e.ev = "in"  -> InOK(e)
               [] e.ev = "out" -> OutOK(e)
